@@ -209,6 +209,21 @@ def main(argv: List[str]) -> int:
                 rep.mark_nontrivial([it['seed'], it['cfg'], it['route']])
         else:
             rep.violation({k: it[k] for k in it if k != 'tid'}, {'failing_clause': v, 'observed': r['obs'], 'counts': r['counts']})
+    seen = {}
+    for tid, (v, r) in out.items():
+        it = items[tid]
+        for s, o in zip(it['sess'], r['obs']):
+            k = '%s %s.%s -> %s' % (s['op'], s['el']['k'], s.get('out', ''), o['class'])
+            seen[k] = seen.get(k, 0) + 1
+        seen['route ' + it['route']] = seen.get('route ' + it['route'], 0) + 1
+        seen['config %s/%s' % (it['cfg']['sql'], it['cfg']['dbml'])] = seen.get('config %s/%s' % (it['cfg']['sql'], it['cfg']['dbml']), 0) + 1
+    rep.notes['steps_by_element_output_and_class'] = dict(sorted(seen.items()))
+    want = ['render %s.%s -> %s' % (k, o, c) for k in ('table', 'enum') for o in ('sql', 'dbml') for c in ('default', 'custom')] + \
+           ['render %s.%s -> %s' % (k, 'dbml', c) for k in ('ref', 'group', 'sticky', 'project', 'column') for c in ('default', 'empty')] + \
+           ['render db.%s -> %s' % (o, c) for o in ('sql', 'dbml') for c in ('default', 'custom')] + ['route ' + x for x in ROUTES]
+    never = [k for k in want if not seen.get(k)]
+    if never or not any(k.startswith('detach') for k in seen):
+        raise core.Machinery('C16: never observed: %s' % never)
     rep.notes['sessions'] = len(ds)
     rep.samples.append({'seed': ds[0][0], 'session': ds[0][1]['sess'], 'observed': out[1][1]['obs']})
     return rep.finish()
